@@ -58,7 +58,7 @@ func runC15(rm *room) {
 		c.c14.prov.store[id] = n.ev
 	}
 	r.Op()
-	switch t.Weighted([]int{6, 2, 6, 6, 6, 2, 1}) {
+	switch t.Weighted([]int{6, 2, 6, 6, 6, 2, 3}) {
 	case 0:
 		c.opMakeJoin()
 	case 1:
@@ -130,20 +130,20 @@ const (
 )
 
 type querier struct {
-	c        *c15
-	jr, inv  int
-	pl, crt  int
-	info     int
-	mem      int
-	memLie   string
-	infoAns  gmsl.RestrictedRoomJoinInfo
+	c       *c15
+	jr, inv int
+	pl, crt int
+	info    int
+	mem     int
+	memLie  string
+	infoAns gmsl.RestrictedRoomJoinInfo
 	// per allow-listed room answers (first room: infoAns) and every joined
 	// local user's membership event, whatever its power
 	infoByRoom map[string]*gmsl.RestrictedRoomJoinInfo
 	allLocal   []gmsl.PDU
-	fakeJR   gmsl.PDU
-	invLie   bool
-	infoArgs []string
+	fakeJR     gmsl.PDU
+	invLie     bool
+	infoArgs   []string
 }
 
 func (q *querier) st() map[skey]string { return q.c.rm.tip.after }
@@ -1221,38 +1221,103 @@ func (c *c15) callInvite(raw []byte, built gmsl.PDU, roomID spec.RoomID, version
 	return got, err
 }
 
-// opInviteV3: the pseudo-ID invite handler is only taken through its request
-// checks (the pseudo-ID room version itself is not modelled): a room ID that
-// differs from the request's, or an unsupported room version, must be refused.
+// opInviteV3: the invite handler that builds the event itself from a proto
+// event (the pseudo-ID flow; the pseudo-ID room version is not modelled, the
+// handler is version-agnostic). It must refuse unsupported versions, a room ID
+// other than the request's, proto events that are not invites, and invites of
+// users already joined to a known room; what it returns is the invite, with
+// the sender ID it was given as state key, signed with the key it was given.
 func (c *c15) opInviteV3() {
 	r, t, rm := c.r, c.t, c.rm
 	tu, _ := spec.NewUserID(c.ju.id, true)
 	rid, _ := spec.NewRoomID(rm.roomID)
-	content, _ := json.Marshal(map[string]any{"membership": "invite"})
 	k := rm.J().Current()
-	q := &inviteQ{c: c}
+	q := &inviteQ{c: c, known: t.Chance(400), mem: rm.membership(rm.tip.after, c.ju.id)}
+	if q.mem == "join" {
+		q.known = true
+	}
+	typ, member := spec.MRoomMember, map[string]any{"membership": "invite"}
+	senderErr := false
 	in := gmsl.HandleInviteV3Input{HandleInviteInput: gmsl.HandleInviteInput{RoomID: *rid, RoomVersion: rm.ver, InvitedUser: *tu, InvitedSenderID: spec.SenderID(c.ju.id), KeyID: k.ID, PrivateKey: k.Priv,
 		Verifier: c.ver, RoomQuerier: q, MembershipQuerier: q, StateQuerier: q, UserIDQuerier: uidFor},
-		InviteProtoEvent: gmsl.ProtoEvent{SenderID: rm.users[0].id, RoomID: rm.roomID, Type: spec.MRoomMember, StateKey: world.Str(c.ju.id), Content: content, PrevEvents: []string{rm.tip.id}, AuthEvents: []string{}, Depth: rm.tip.ev.Depth() + 1},
+		InviteProtoEvent: gmsl.ProtoEvent{SenderID: rm.users[0].id, RoomID: rm.roomID, Type: typ, StateKey: world.Str(c.ju.id), PrevEvents: []string{rm.tip.id}, AuthEvents: []string{}, Depth: rm.tip.ev.Depth() + 1},
 		GetOrCreateSenderID: func(ctx context.Context, userID spec.UserID, roomID spec.RoomID, roomVersion string) (spec.SenderID, ed25519.PrivateKey, error) {
+			if senderErr {
+				return "", nil, errors.New("sender id store unavailable")
+			}
 			return spec.SenderID(userID.String()), k.Priv, nil
 		}}
-	kind := "path_room_mismatch"
-	if t.Bool() {
-		kind = "unsupported_version"
-		in.RoomVersion = "99.unknown"
-	} else {
-		in.InviteProtoEvent.RoomID = "!elsewhere:" + string(rm.R().Name)
-	}
 	r.Logf("op invite_v3 %s", c.ju.id)
-	c.fault(kind)
+	kinds := []string{"path_room_mismatch", "unsupported_version", "membership_not_invite", "wrong_type", "already_joined_known_room", "sender_id_error", "querier_membership_error", "querier_known_error"}
+	nf := t.Weighted([]int{3, 5, 2})
+	noStripped := false
+	for i := 0; i < nf; i++ {
+		kind := kinds[t.Weighted([]int{3, 2, 4, 3, 3, 1, 1, 1})]
+		switch kind {
+		case "path_room_mismatch":
+			in.InviteProtoEvent.RoomID = "!elsewhere:" + string(rm.R().Name)
+		case "unsupported_version":
+			in.RoomVersion = "99.unknown"
+		case "membership_not_invite":
+			member = map[string]any{"membership": sim.Pick(t, []string{"join", "leave", "ban", "knock"})}
+		case "wrong_type":
+			typ = sim.Pick(t, []string{"m.room.topic", "org.example.thing"})
+		case "already_joined_known_room":
+			q.known, q.mem = true, "join"
+		case "sender_id_error":
+			senderErr = true
+		case "querier_membership_error":
+			q.memErr = true
+		case "querier_known_error":
+			q.knownErr = true
+		}
+		c.fault(kind)
+	}
+	in.InviteProtoEvent.Type = typ
+	in.InviteProtoEvent.Content, _ = json.Marshal(member)
+	if !noStripped && t.Chance(700) {
+		in.StrippedState = c.strippedState()
+	}
 	var got gmsl.PDU
 	var err error
 	if guard(r, "HandleInviteV3", func() { got, err = gmsl.HandleInviteV3(context.Background(), in) }) {
 		return
 	}
-	r.Logf("  HandleInviteV3 -> accepted=%v err=%v", err == nil && got != nil, errText(err))
-	r.Check(err != nil, "C15", "invitev3_accepts_bad_request", kind, "HandleInviteV3 accepted a request with %s", kind)
+	accepted := err == nil && got != nil
+	_, verr := gmsl.GetRoomVersion(in.RoomVersion)
+	gVersion := verr == nil
+	gRoom := in.InviteProtoEvent.RoomID == rm.roomID
+	gInvite := typ == spec.MRoomMember && member["membership"] == "invite"
+	gNotJoined := !(q.known && !q.knownErr && q.mem == "join" && !q.memErr)
+	r.State(fmt.Sprintf("invite_v3 %s accepted=%v", c.sig(), accepted))
+	r.Logf("  HandleInviteV3 -> accepted=%v err=%v ; guards version=%v room=%v invite=%v not_joined=%v", accepted, errText(err), gVersion, gRoom, gInvite, gNotJoined)
+	if !accepted {
+		r.Probe("invite_v3_refused")
+		if gVersion && gRoom && gInvite && gNotJoined && len(c.faults) == 0 {
+			r.Violate("C15", "invitev3_spurious_refusal", c.sig(), "HandleInviteV3 refused although every guard holds and no fault was injected: %v", err)
+		}
+		return
+	}
+	r.Probe("invite_v3_accepted")
+	r.Check(gVersion, "C15", "invitev3_accepts_bad_request", "unsupported_version", "HandleInviteV3 accepted a request for unsupported room version %s", in.RoomVersion)
+	r.Check(gRoom, "C15", "invitev3_accepts_bad_request", "path_room_mismatch", "HandleInviteV3 accepted a proto event of room %s for request room %s", in.InviteProtoEvent.RoomID, rm.roomID)
+	if !gInvite {
+		what := "membership_not_invite"
+		if typ != spec.MRoomMember {
+			what = "not_a_member_event"
+		}
+		r.Violate("C15", "invite_accepts_non_invite", "v3:"+what, "HandleInviteV3 built and signed an event that is not an invite (type %s, content %v)", typ, member)
+	}
+	r.Check(gNotJoined, "C15", "invite_already_joined", "v3:"+c.sig(), "HandleInviteV3 accepted an invite for a user already joined to a known room")
+	r.Check(!senderErr, "C15", "invitev3_accepts_bad_request", "sender_id_error", "HandleInviteV3 returned an event although no sender ID could be obtained")
+	// the event it returns: the invite, for the sender ID it was given, signed with the key it was given
+	gm, _ := got.Membership()
+	r.Check(got.Type() == spec.MRoomMember && gm == "invite" && got.StateKey() != nil && *got.StateKey() == c.ju.id && got.RoomID().String() == rm.roomID && string(got.SenderID()) == rm.users[0].id,
+		"C15", "invitev3_event_modified", c.sig(), "HandleInviteV3 returned %s in room %s, not the requested invite of %s by %s", describe(got), got.RoomID().String(), c.ju.id, rm.users[0].id)
+	red, rerr := rm.impl.RedactEventJSON(got.JSON())
+	if rerr != nil || gmsl.VerifyJSON(c.ju.id, "ed25519:1", ed25519.PublicKey(k.Priv.Public().(ed25519.PublicKey)), red) != nil {
+		r.Violate("C15", "invite_not_countersigned", "v3:"+c.sig(), "HandleInviteV3's event carries no valid signature under the sender ID's key")
+	}
 }
 
 // ---- PerformJoin against the resident ----------------------------------------------------------------
